@@ -125,6 +125,12 @@ def gfa_layout(text):
         for rest in by_from.values():      # links of segments without an S line (left as they are)
             out += rest
         lines = out
+    if h in (2, 3) and not any(l.startswith(("P\t", "W\t")) for l in lines):
+        # path / walk / comment records may stand anywhere: here between the first segment and the rest of the graph
+        k = next((i for i, l in enumerate(lines) if l.startswith("S\t")), None)
+        if k is not None:
+            sid = lines[k].split("\t")[1]
+            lines[k + 1:k + 1] = [f"P\tharness_path\t{sid}+\t*", f"W\tsmp\t0\tctg\t0\t1\t>{sid}", "# a comment"]
     text = "\n".join(lines)
     if final and h == 1:
         text += "\n"
@@ -133,9 +139,15 @@ def gfa_layout(text):
     return text
 
 
+def read_out(path):
+    """text of a file written by the implementation; bytes that are not UTF-8 become U+FFFD instead of breaking the harness"""
+    with open(path, "r", encoding="utf-8", errors="replace") as f:
+        return f.read()
+
+
 def write_text(path, text, storage="plain", block=60000):
     base = os.path.basename(path)
-    if (base.endswith(".gfa") or base.endswith(".gfa.gz")) and storage in ("plain", "gz") and "\nL\t" in text and not getattr(write_text, "keep_layout", False):
+    if (base.endswith(".gfa") or base.endswith(".gfa.gz")) and storage in ("plain", "gz") and (text.startswith("S\t") or "\nS\t" in text) and not getattr(write_text, "keep_layout", False):
         text = gfa_layout(text)
     if storage == "plain":
         with open(path, "w", encoding="utf-8") as f:
@@ -143,8 +155,16 @@ def write_text(path, text, storage="plain", block=60000):
     elif storage == "bgzf":
         write_bgzf(path, text.encode(), block)
     elif storage == "gz":
-        with gzip.open(path, "wt", encoding="utf-8") as f:
-            f.write(text)
+        data = text.encode("utf-8")
+        if len(data) > 40 and zlib.crc32(data) % 3 == 1 and os.environ.get("VERIF_PLAIN_CLI") != "1":
+            # a gzip file may consist of several members (`cat a.gz b.gz`, bgzip): here three, cut in mid-line
+            a, b = len(data) // 3, 2 * len(data) // 3
+            with open(path, "wb") as f:
+                for part in (data[:a], data[a:b], data[b:]):
+                    f.write(gzip.compress(part))
+        else:
+            with gzip.open(path, "wt", encoding="utf-8") as f:
+                f.write(text)
     else:
         raise ValueError(storage)
 
@@ -218,9 +238,9 @@ def read_text(path):
     with open(path, "rb") as f:
         magic = f.read(2)
     if magic == b"\x1f\x8b":
-        with gzip.open(path, "rt", encoding="utf-8") as f:
+        with gzip.open(path, "rt", encoding="utf-8", errors="replace") as f:
             return f.read()
-    with open(path, encoding="utf-8") as f:
+    with open(path, encoding="utf-8", errors="replace") as f:
         return f.read()
 
 
